@@ -32,6 +32,7 @@ ALL_BACKENDS = ['file', 'dir', 'sql-file', 'file-json', 'dir-json', 'file-py', '
 # the deviations that describe the code as it is now (kept in step with the fix: commits; see DESIGN.md)
 CURRENT_DIR = {'dir_remove_then_rename', 'asdict_keyerror_escapes'}
 CURRENT_FILE = {'file_open_rewrites', 'file_items_rereads'}
+CURRENT_SQL = {'items_select_per_key'}
 
 
 def O(t, k=1, v=0, k2=1, v2=0):
@@ -276,7 +277,7 @@ def check_C13(tier):
     # layer I: idealised must hold; the code as it is now (its named deviations) gives candidates
     jobs = []
     for sid in range(1, 8):
-        for module, cur in (('DirFS', CURRENT_DIR), ('FileFS', CURRENT_FILE)):
+        for module, cur in (('DirFS', CURRENT_DIR), ('FileFS', CURRENT_FILE), ('SqlFS', CURRENT_SQL)):
             jobs.append((module, sid, True, set(), work, 'AtomicOK'))
             jobs.append((module, sid, True, cur, work, 'AtomicOK'))
     with ThreadPoolExecutor(max_workers=8) as ex:
@@ -375,8 +376,10 @@ CONC_SCEN = {
     22: ([0, 0], [O('set', 1, 11), O('set', 2, 21), O('items')]),
     23: ([10, 0], [O('set', 2, 21), O('open')]),
     24: ([10, 0], [O('set', 2, 21), O('open'), O('load')]),
+    26: ([10, 20], [O('clear'), O('del', 2)]),
 }
-DIR_SCEN = [11, 12, 13, 14, 15, 16, 17, 18, 19, 20, 21, 22]
+DIR_SCEN = [11, 12, 13, 14, 15, 16, 17, 18, 19, 20, 21, 22, 26]
+SQL_SCEN = DIR_SCEN
 FILE_SCEN = [12, 13, 14, 15, 16, 18, 20, 23, 24]      # (writer/writer is promised for directory and SQL archives only)
 
 
@@ -604,6 +607,9 @@ def check_C14(tier):
     for sid in FILE_SCEN:
         jobs.append(('FileFS', sid, False, set(), work, 'ConcOK'))
         jobs.append(('FileFS', sid, False, CURRENT_FILE, work, 'ConcOK'))
+    for sid in SQL_SCEN:
+        jobs.append(('SqlFS', sid, False, set(), work, 'ConcOK'))
+        jobs.append(('SqlFS', sid, False, CURRENT_SQL, work, 'ConcOK'))
     with ThreadPoolExecutor(max_workers=8) as ex:
         for r in ex.map(lambda j: tlc_model(*j), jobs):
             mcs.append(r)
@@ -614,7 +620,8 @@ def check_C14(tier):
     maxsw = 4 if thorough else 3
     plans = []
     gen_states = gen_trans = 0
-    genjobs = [('DirFS', 'FsGen', sid, CURRENT_DIR) for sid in DIR_SCEN] + [('FileFS', 'FsGenFile', sid, CURRENT_FILE) for sid in FILE_SCEN]
+    genjobs = [('DirFS', 'FsGen', sid, CURRENT_DIR) for sid in DIR_SCEN] + [('FileFS', 'FsGenFile', sid, CURRENT_FILE) for sid in FILE_SCEN] \
+        + [('SqlFS', 'FsGenSql', sid, CURRENT_SQL) for sid in SQL_SCEN]
     with ThreadPoolExecutor(max_workers=8) as ex:
         gens = list(ex.map(lambda g: conc_schedules(g[0], g[1], g[2], g[3], maxsw if len(CONC_SCEN[g[2]][1]) < 3 else maxsw - 1, work), genjobs))
     root = common.scratch('fs-conc')
@@ -625,7 +632,7 @@ def check_C14(tier):
         gen_trans += tr
         nsched += len(scheds)
         init, ops = CONC_SCEN[sid]
-        fam = 'dir' if module == 'DirFS' else 'file'
+        fam = {'DirFS': 'dir', 'FileFS': 'file', 'SqlFS': 'sql'}[module]
         backends = [b for b in ALL_BACKENDS if b.startswith(fam)]
         bad = [x for x in scheds if x['bad']]
         good = [x for x in scheds if not x['bad']]
@@ -633,7 +640,7 @@ def check_C14(tier):
         rng.shuffle(bad)
         pick = bad[:(40 if thorough else 6)] + good[:(60 if thorough else 6)]
         for n, x in enumerate(pick):
-            bs = backends if thorough and n < 6 else [backends[0]] + ([backends[1 + (n + sid) % (len(backends) - 1)]] if n % 3 == 0 else [])
+            bs = backends if thorough and n < 6 else [backends[0]] + ([backends[1 + (n + sid) % (len(backends) - 1)]] if n % 3 == 0 and len(backends) > 1 else [])
             for b in bs:
                 keys = 'tuple' if (b == 'dir' and n % 4 == 3) else 'str'
                 jobs.append((b, keys, sid, init, ops, x['sched'], os.path.join(root, 'c%d' % len(jobs)), x['bad']))
